@@ -20,7 +20,7 @@ EXPLANATION = (
     "_DIFF_NOISE_PARAMS (p_false_pos->epsilon, p_false_neg->epsilon_prime) and BitStrings passes both rates by keyword; weights are normalised by their sum. "
     "NOT decided: normalisation/positivity of evolved states, Rabi oscillation, legacy/V2 agreement (runtime numerics)."
 )
-ASSUMPTIONS = ["declared types come from annotations; numpy arrays are recognised by their annotation names"]
+ASSUMPTIONS = ["declared types come from annotations; numpy arrays are recognised by their annotation names", "the unflipped-return rule reads the alternatives of the symbolic return value (pstatic/sym.py); the convention tables are compared with the literals of the source and of docs/source/conventions.md"]
 
 ARRAYISH = ("ndarray", "ArrayLike", "AbstractArray", "TensorLike")
 
